@@ -614,6 +614,14 @@ type peekedConn struct {
 // be read again.
 func (c *peekedConn) Read(buf []byte) (int, error) { return c.r.Read(buf) }
 
+// CloseWrite shuts down the writing side of the embedded connection if it supports that.
+func (c *peekedConn) CloseWrite() error {
+	if cw, ok := c.Conn.(interface{ CloseWrite() error }); ok {
+		return cw.CloseWrite()
+	}
+	return nil
+}
+
 func (p *Proxy) roundTrip(ctx *Context, req *http.Request) (*http.Response, error) {
 	if ctx.SkippingRoundTrip() {
 		log.Debugf("martian: skipping round trip")
@@ -640,6 +648,14 @@ func (p *Proxy) connect(req *http.Request) (*http.Response, net.Conn, error) {
 		res, err := http.ReadResponse(pbr, req)
 		if err != nil {
 			return nil, nil, err
+		}
+
+		if res.StatusCode/100 == 2 {
+			// A successful response to CONNECT has no body: what follows its head on the
+			// connection is the tunnel, part of which may already sit in the read buffer.
+			res.Body = http.NoBody
+			buffered, _ := pbr.Peek(pbr.Buffered())
+			return res, &peekedConn{conn, io.MultiReader(bytes.NewReader(append([]byte(nil), buffered...)), conn)}, nil
 		}
 
 		return res, conn, nil
